@@ -139,7 +139,9 @@ def run_case(case, rec):
         dm[1] *= 0.0
         rec.tag("empty_beta_channel", True)
     has_nldf = model.settings.has_nldf
-    tol = 1e-5 if has_nldf else 1e-7
+    # NLDF: 3e-5 (largest value on the unchanged tree 1.24e-5 in 4565 thorough-tier evaluations, a g-shell case; the first
+    # bound 1e-5 came from runs that peaked at 5e-6 and raised that one false alarm; seeded changes give >= 5e-4)
+    tol = 3e-5 if has_nldf else 1e-7
     for k in ("family", "spin", "mol", "basis", "level", "mode", "evaluator", "mix", "plan_type", "interp", "model", "system",
               "mul_base"):
         if cfg.get(k) is not None:
